@@ -18,6 +18,7 @@ RULE = (
     "last/middle/first-after-ids/very first, +-DefaultDirection line, +-trailing newline, rectangular and ragged); "
     "valid: arbitrary rectangular/ragged tab texts for the validity predicate. Non-trivial = at least one row "
     "with >=2 proteins (pin) / at least 2 data lines (valid); distinct = distinct generated text hash."
+    " Protein separator ':' or a caller-given one (; | , //) through the function and through the module's own command-line entry point (main), the latter also with an output file left by an earlier conversion."
 )
 ASSUMPTIONS = [
     "fields are non-empty and free of surrounding blanks; header-only files, empty trailing fields and a "
@@ -33,7 +34,7 @@ def _tok(rng, lo=1, hi=10):
     return "".join(rng.choice(list(TOK), size=n))
 
 
-def gen_pin(rng):
+def gen_pin(rng, sep_protein=":"):
     nfeat = int(rng.integers(0, 21))
     nrows = int(rng.choice([1, 2, 3, 5, 20, 200, 999, 1000, 1001, 2000, 4096], p=[.15, .15, .15, .2, .2, .09, .01, .02, .01, .01, .01]))
     maxprot = int(rng.integers(1, 7))
@@ -85,7 +86,7 @@ def gen_pin(rng):
     text = "\n".join(lines_in) + ("\n" if trailing_nl else "")
     lines_out = ["\t".join(cols)]
     for f in rows:
-        lines_out.append("\t".join(":".join(x) if isinstance(x, list) else x for x in f))
+        lines_out.append("\t".join(sep_protein.join(x) if isinstance(x, list) else x for x in f))
     expected = "\n".join(lines_out) + "\n"
     rectangular = (nmulti == 0)
     meta = {"nfeat": nfeat, "nrows": nrows, "pos": pos, "direction": direction, "trailing_nl": trailing_nl,
@@ -133,17 +134,35 @@ def _mod():
     return core.mk("mokapot.parsers.pin_to_tsv")
 
 
-def _convert(m, text, real_files=None):
+def _convert(m, text, real_files=None, sep_protein=":", via_main=False, leftover=False):
+    kw = {} if sep_protein == ":" else {"sep_protein": sep_protein}
+    if real_files is not None and via_main:
+        # the module's own command-line entry point (python -m mokapot.parsers.pin_to_tsv in out [--sep_protein x]),
+        # possibly with an output file left by an earlier conversion
+        import sys
+
+        src = real_files / "in.pin"
+        dst = real_files / "out.tsv"
+        src.write_text(text)
+        if leftover:
+            dst.write_text("stale\tcontent\tof an earlier conversion\n")
+        argv = sys.argv
+        sys.argv = ["pin_to_tsv", str(src), str(dst)] + (["--sep_protein", sep_protein] if kw else [])
+        try:
+            c = core.Call(m.main)
+        finally:
+            sys.argv = argv
+        return c, (dst.read_text() if dst.exists() else "")
     if real_files is not None:
         # through real file objects, as the command line does
         src = real_files / "in.pin"
         dst = real_files / "out.tsv"
         src.write_text(text)
         with open(src) as fi, open(dst, "w") as fo:
-            c = core.Call(m.pin_to_valid_tsv, fi, fo)
+            c = core.Call(m.pin_to_valid_tsv, fi, fo, **kw)
         return c, dst.read_text()
     out = io.StringIO()
-    c = core.Call(m.pin_to_valid_tsv, io.StringIO(text), out)
+    c = core.Call(m.pin_to_valid_tsv, io.StringIO(text), out, **kw)
     return c, out.getvalue()
 
 
@@ -156,13 +175,22 @@ def run_pin(case):
     keys = set()
     nt = evals = 0
     for rep in range(case["reps"]):
-        text, expected, is_valid, meta = gen_pin(rng)
+        # protein separator: the default, or another one given by the caller (documented option of function and tool)
+        sepp = str(rng.choice([":", ":", ";", "|", ",", "//"]))
+        text, expected, is_valid, meta = gen_pin(rng, sepp)
+        meta["sep_protein"] = sepp
         evals += 1
         if rep % 4 == 3:
+            via_main = bool(rep % 8 == 7)
+            leftover = bool(via_main and rep % 16 == 15)
+            meta["entry"] = "main" if via_main else "files"
+            meta["leftover_output"] = leftover
+            if via_main:
+                res.count("tool_runs")
             with core.scratch("c19") as dd:
-                c, got = _convert(m, text, real_files=dd)
+                c, got = _convert(m, text, real_files=dd, sep_protein=sepp, via_main=via_main, leftover=leftover)
         else:
-            c, got = _convert(m, text)
+            c, got = _convert(m, text, sep_protein=sepp)
         if not c.ok:
             res.violate("crash", c.sig, msg=c.info["msg"], text=text[:600], meta=meta)
             continue
@@ -179,7 +207,7 @@ def run_pin(case):
             res.violate("crash", v.sig, where="is_valid_tsv(output)", meta=meta)
         elif v.value is not True:
             res.violate("output_not_valid", meta["pos"], meta=meta, output=got[:400])
-        c2, got2 = _convert(m, got)
+        c2, got2 = _convert(m, got, sep_protein=sepp)
         if c2.ok and got2 != got:
             res.violate("not_idempotent", meta["pos"], meta=meta)
         elif not c2.ok:
